@@ -159,11 +159,17 @@ Definition callee_compatible (site_callee validator_callee : string) : bool :=
   String.eqb site_callee validator_callee ||
   existsb (fun p => String.eqb (fst p) site_callee && String.eqb (snd p) validator_callee) (must_pairs ++ method_aliases ++ helper_validators).
 
-(** text after the first "." of a guard: [as.Token != ""] and [ann.Token != ""] guard the same field *)
+(** text after the last "." of a guard: [as.Range != ""] and [rule.Alerts.Range != ""] guard the same field *)
+Fixpoint has_dot (s : string) : bool :=
+  match s with
+  | EmptyString => false
+  | String c r => Ascii.eqb c "."%char || has_dot r
+  end.
+
 Fixpoint after_dot (s : string) : string :=
   match s with
   | EmptyString => EmptyString
-  | String c r => if Ascii.eqb c "."%char then r else after_dot r
+  | String c r => if has_dot r then after_dot r else if Ascii.eqb c "."%char then r else s
   end.
 
 (** the `X != ""` guards around every occurrence of a site in the current source ("" = unguarded) *)
